@@ -85,10 +85,30 @@ ITEMS = ["group_PDB", "id", "type_symbol", "label_atom_id", "label_alt_id",
          "pdbx_PDB_model_num"]
 
 
-def cif_text(models):
-    """models: list of lists of atom dicts (with alt, charge fields)."""
+OPTIONAL_ITEMS = ("pdbx_PDB_ins_code", "pdbx_formal_charge")
+EXTRA_ITEMS = ("Cartn_x_esd", "Cartn_y_esd", "Cartn_z_esd", "occupancy_esd")
+
+
+def cif_text(models, layout=0):
+    """models: list of lists of atom dicts (with alt, charge fields).
+    layout: the order (and set) of the items of a loop carries no meaning in
+    mmCIF - the atom_site items are rotated by `layout` positions, odd
+    layouts carry the *_esd items of older files, and an optional item none
+    of whose values is set is left out when layout % 3 == 2."""
+    rows_all = [a for m in models for a in m]
+    items = list(ITEMS)
+    if layout % 2:
+        k = items.index("Cartn_z") + 1
+        items[k:k] = list(EXTRA_ITEMS)
+    if layout % 3 == 2:
+        if not any(a["icode"] for a in rows_all):
+            items.remove("pdbx_PDB_ins_code")
+        if not any(a.get("charge") for a in rows_all):
+            items.remove("pdbx_formal_charge")
+    r = layout % len(items)
+    order = items[r:] + items[:r]
     lines = [cif_header(), "loop_"]
-    lines += [f"_atom_site.{i}" for i in ITEMS]
+    lines += [f"_atom_site.{i}" for i in order]
     serial = 1
     # loop order carries no meaning in mmCIF: multi-model entries are written
     # with the polymer atoms of all models first and the hetero atoms of all
@@ -109,7 +129,9 @@ def cif_text(models):
                    a["icode"] or "?", f"{x:.3f}", f"{y:.3f}", f"{z:.3f}",
                    "1.00", "0.00", a.get("charge") or "?", a["res_seq"],
                    a["res_name"], a["chain"] or ".", q(a["name"]), mi]
-            lines.append(" ".join(str(v) for v in row))
+            byname = dict(zip(ITEMS, row))
+            byname.update({e: "?" for e in EXTRA_ITEMS})
+            lines.append(" ".join(str(byname[i]) for i in order))
             serial += 1
     lines.append("#")
     return "\n".join(lines) + "\n"
@@ -152,7 +174,8 @@ def make_models(structure, feats):
         atoms = build.build_peptide(["ALA", "ARG", "SER"], hydrogens=h)
     elif structure == "two":
         a = build.build_peptide(["GLY", "LYS", "ALA"], chain="A", hydrogens=h)
-        b = build.build_peptide(["THR", "ARG", "GLY"], chain="B", start=11,
+        # chain ids differing by case only (entries with > 26 chains)
+        b = build.build_peptide(["THR", "ARG", "GLY"], chain="a", start=11,
                                 origin=(0.0, 0.0, 20.0), hydrogens=h)
         atoms = a + b
         # coordinates that fill their eight PDB columns
@@ -232,7 +255,9 @@ def compare(structure, feats, ff, opts):
     clean = "--clean" in opts
     o = [f"--ff={ff}"] + list(opts)
     rp = pipeline.run(pdb_text(models), o, input_name="in.pdb")
-    rc = pipeline.run(cif_text(models), o, input_name="in.cif")
+    # every feature subset comes in a loop layout of its own
+    layout = sum(1 << FEATURES.index(f) for f in feats) + len(structure)
+    rc = pipeline.run(cif_text(models, layout), o, input_name="in.cif")
     if not rp.ok:
         return ("pdb-run-fails", {"exc": rp.exc})
     if not rc.ok:
